@@ -28,6 +28,10 @@ pub struct Round {
     /// (routed to this node) sits in this node's pool (staking off only)
     #[serde(default)]
     pub peer_conflict: Option<u8>,
+    /// do not hand the producer a golden ticket even if the density rule demands one for the next
+    /// block: the producer must then decline to bundle, not emit a block nobody accepts
+    #[serde(default)]
+    pub starve: bool,
 }
 
 #[derive(Debug, Clone, Serialize, Deserialize, PartialEq, Eq, Hash)]
@@ -50,6 +54,7 @@ pub struct Info {
     pub max_height: u64,
     pub atr_payout_blocks: usize,
     pub evictions_by_peer_block: usize,
+    pub starved_rounds: usize,
 }
 
 fn features(b: &Block, staking: bool) -> String {
@@ -183,7 +188,10 @@ pub fn run_case(case: &Case) -> (Vec<(String, String)>, Info) {
             let c = carrier_tx(&me, ts);
             block_on(p.mempool.add_transaction_if_validates(c, &p.chain));
         }
-        let want_gt = r.gt || density_needs_gt(&p);
+        let want_gt = r.gt || (density_needs_gt(&p) && !r.starve);
+        if r.starve && !r.gt && density_needs_gt(&p) {
+            info.starved_rounds += 1;
+        }
         if want_gt {
             if let Some(gt) = block_on(p.mine_gt(tip_hash, &key(r.miner), ri as u64 + 1)) {
                 block_on(p.mempool.add_golden_ticket(gt));
@@ -307,6 +315,7 @@ fn eval(c: &mut Ctx, case: &Case, counting: bool) -> Vec<(String, String)> {
             (info.with_staking, "produced_with_staking_tx"),
             (info.not_produced, "round_without_production"),
             (info.evictions_by_peer_block, "pooled_tx_evicted_by_other_producers_block"),
+            (info.starved_rounds, "round_without_the_ticket_the_density_rule_needs"),
         ] {
             if n > 0 {
                 *c.classes.entry(k.to_string()).or_insert(0) += n as u64;
@@ -337,8 +346,9 @@ pub fn arb_round() -> impl Strategy<Value = Round> {
         0u8..4,
         prop_oneof![3 => 5_000u32..6_000, 2 => 6_000u32..20_000, 2 => 200u32..5_000, 1 => 1u32..200],
         prop_oneof![5 => Just(None), 1 => any::<u8>().prop_map(Some)],
+        prop_oneof![3 => Just(false), 1 => Just(true)],
     )
-        .prop_map(|(txs, gt, miner, dt, peer_conflict)| Round { txs, gt, miner, dt, peer_conflict })
+        .prop_map(|(txs, gt, miner, dt, peer_conflict, starve)| Round { txs, gt, miner, dt, peer_conflict, starve })
 }
 
 pub fn arb_case(max_rounds: usize) -> impl Strategy<Value = Case> {
